@@ -98,6 +98,14 @@ CLAIMS = {
              "payload+CRLF; R15.6 decimal scratch buffers hold i64::MIN. Does not decide prefix-stability or round-trips by value.",
         technique="intra-procedural forward taint over MIR with root tracking and guard-based sanitisation (dominating comparisons)",
         ref="DESIGN.md §3 C15"),
+    "C13": dict(
+        text="Decides structural clauses of C13 on Compactor::compact: R13.1 the per-key fold must combine with ReplicatedValue::merge "
+             "(known finding: keeps newest-by-time); R13.2 no comparison mixes wall-clock and Lamport time (known finding); R13.4 "
+             "manifest read-modify-write must be re-validated before save (4 known findings incl. flush); R13.5 failed fetch/decode "
+             "never schedules a segment for removal (2 known findings); R13.6 manifest entries are dropped by membership in the id "
+             "list derived from the folded segments; R13.7 tombstones are judged on the folded map only. Does not decide state equality.",
+        technique="MIR call/provenance analysis across closure captures, wall-clock vs logical-time provenance typing, path search from failure edges",
+        ref="DESIGN.md §3 C13"),
 }
 
 PENDING_REASON = "check not built yet (build in progress; DESIGN.md §3 lists the planned structural clauses)"
